@@ -190,7 +190,7 @@ def r3_no_partial_consumption(chk):
                     if c.name not in ("get_u8", "split_to", "advance", "get_u64", "copy_to_bytes"):
                         continue
                     gs = body.guards(c.blk, select_aware=False)
-                    in_header_state = any(g.atom[0] == "discr" and g.atom[1].endswith(".state") and g.label == 0 for g in gs)
+                    in_header_state = any(g.atom[0] == "discr" and g.atom[1].endswith(".state") and g.is_value(0) for g in gs)
                     if not in_header_state:
                         continue
                     key = "%s|%s after completeness test" % (short(body.path), c.name)
@@ -206,7 +206,7 @@ def r3_no_partial_consumption(chk):
                         r.bad(cfg, key, where(body, c.blk), "`%s` consumes bytes of the shared accumulator before the whole frame is known to be present: a header cut from its body desynchronises the stream" % c.name)
             if body.impl_trait and body.impl_trait.endswith("codec::Decoder") and body.name == "decode" and "zmtp::codec" in body.path:
                 # header consumed -> state stored before any `return Ok(None)`
-                hdr = [c for c in body.calls if c.name == "split_to" and any(g.atom[0] == "discr" and g.atom[1].endswith(".decoding_state") and g.label == 0 for g in body.guards(c.blk, select_aware=False))]
+                hdr = [c for c in body.calls if c.name == "split_to" and any(g.atom[0] == "discr" and g.atom[1].endswith(".decoding_state") and g.is_value(0) for g in body.guards(c.blk, select_aware=False))]
                 for c in hdr:
                     key = "%s|state recorded after consuming the header" % short(body.path)
                     stores = set(b for b, i, st in body.statements() if st["k"] == "assign" and st["p"]["pr"] and st["p"]["pr"][-1][0] == "field" and st["p"]["pr"][-1][2] == "decoding_state")
